@@ -16,9 +16,9 @@ pub struct KeyString { pub id: u64 }
 
 pub enum Value { Null, Boolean(bool), Integer(i64), Bytes(Opaque), Other(Opaque) }
 
-impl Value {
+impl Clone for Value {
     #[verifier::external_body]
-    pub fn clone(&self) -> (r: Value)
+    fn clone(&self) -> (r: Self)
         ensures r == *self,
     { unimplemented!() }
 }
@@ -69,7 +69,45 @@ pub enum Ev {
 }
 
 pub struct RuntimeState { pub vars: Ghost<Map<u64, Value>> }
-pub struct Context { pub state: RuntimeState, pub trace: Ghost<Seq<Ev>> }
+
+// ---- the embedder's event target (`&mut dyn Target`): every outcome is the embedder's choice.
+#[derive(Clone, Copy)]
+pub enum PathPrefix { Event, Metadata }
+pub struct OwnedValuePath { pub id: u64, pub root: bool }
+impl Clone for OwnedValuePath {
+    #[verifier::external_body]
+    fn clone(&self) -> (r: Self) ensures r == *self { unimplemented!() }
+}
+impl OwnedValuePath {
+    pub fn is_root(&self) -> (r: bool) ensures r == self.root { self.root }
+}
+pub struct OwnedTargetPath { pub prefix: PathPrefix, pub path: OwnedValuePath }
+pub enum TOp {
+    Insert(OwnedTargetPath, Value, Result<(), Str>),
+    Remove(OwnedTargetPath, bool, Result<Option<Value>, Str>),
+    ProgramRun(Resolved),
+}
+pub struct TargetObj { pub ops: Ghost<Seq<TOp>> }
+impl TargetObj {
+    /// what a read of `path` answers in the current target state (Ok(Some), Ok(None) or a fault)
+    pub uninterp spec fn spec_get(&self, path: OwnedTargetPath) -> Result<Option<Value>, Str>;
+    #[verifier::external_body]
+    pub fn target_get(&self, path: &OwnedTargetPath) -> (r: Result<Option<&Value>, Str>)
+        ensures (match r {
+            Ok(Some(v)) => self.spec_get(*path) == Ok::<Option<Value>, Str>(Some(*v)),
+            Ok(None) => self.spec_get(*path) == Ok::<Option<Value>, Str>(None),
+            Err(e) => self.spec_get(*path) == Err::<Option<Value>, Str>(e) }),
+    { unimplemented!() }
+    #[verifier::external_body]
+    pub fn target_insert(&mut self, path: &OwnedTargetPath, value: Value) -> (r: Result<(), Str>)
+        ensures final(self).ops@ == old(self).ops@.push(TOp::Insert(*path, value, r)),
+    { unimplemented!() }
+    #[verifier::external_body]
+    pub fn target_remove(&mut self, path: &OwnedTargetPath, compact: bool) -> (r: Result<Option<Value>, Str>)
+        ensures final(self).ops@ == old(self).ops@.push(TOp::Remove(*path, compact, r)),
+    { unimplemented!() }
+}
+pub struct Context { pub state: RuntimeState, pub target: TargetObj, pub trace: Ghost<Seq<Ev>> }
 
 pub open spec fn lookup(m: Map<u64, Value>, k: u64) -> Option<Value> {
     if m.dom().contains(k) { Some(m[k]) } else { None }
@@ -95,6 +133,17 @@ impl RuntimeState {
 
 impl Context {
     pub fn state_mut(&mut self) -> (r: &mut RuntimeState)
-        ensures *r == old(self).state, *final(r) == final(self).state, final(self).trace == old(self).trace,
+        ensures *r == old(self).state, *final(r) == final(self).state, final(self).trace == old(self).trace, final(self).target == old(self).target,
     { &mut self.state }
+    pub fn state(&self) -> (r: &RuntimeState)
+        ensures *r == self.state,
+    { &self.state }
+    pub fn target(&self) -> (r: &TargetObj)
+        ensures *r == self.target,
+    { &self.target }
+    pub fn target_mut(&mut self) -> (r: &mut TargetObj)
+        ensures *r == old(self).target, *final(r) == final(self).target, final(self).trace == old(self).trace, final(self).state == old(self).state,
+    { &mut self.target }
 }
+pub assume_specification<T> [std::option::Option::<std::option::Option<T>>::flatten](o: Option<Option<T>>) -> (r: Option<T>)
+    ensures r == (match o { Some(Some(x)) => Some(x), _ => None::<T> });
